@@ -148,6 +148,9 @@ func (ev *Evaluator) stmt(env *Env, s ast.Stmt) ctrl {
 		if c, ok := ch.(*ChanVal); ok {
 			name = c.Name
 			c.Sent = append(c.Sent, v)
+			if c.OnSend != nil {
+				c.OnSend(v)
+			}
 			if c.Queue {
 				c.Feed = append(c.Feed, v)
 			}
@@ -270,6 +273,8 @@ func (ev *Evaluator) assign(env *Env, s *ast.AssignStmt) {
 			op = token.SHL
 		case token.SHR_ASSIGN:
 			op = token.SHR
+		case token.AND_NOT_ASSIGN:
+			op = token.AND_NOT
 		default:
 			ev.fail(s.Pos(), "unsupported assignment operator %s", s.Tok)
 		}
@@ -487,6 +492,22 @@ func (ev *Evaluator) typeAssert(env *Env, e *ast.TypeAssertExpr) (Value, bool) {
 			ev.fail(e.Pos(), "type assertion to an interface type")
 		}
 		return ev.zero(e.Pos(), tv.Type), false
+	case *StructVal:
+		// a struct value taken back out of an interface{} (an element of a container/heap): it is of the asserted type when
+		// it has exactly that type's fields (values do not carry their type; two struct types with the same field names
+		// held in one interface variable are not told apart - none occur)
+		if st, ok := tv.Type.Underlying().(*types.Struct); ok {
+			match := st.NumFields() > 0
+			for i := 0; i < st.NumFields(); i++ {
+				if _, has := xv.F[st.Field(i).Name()]; !has && !st.Field(i).Embedded() {
+					match = false
+				}
+			}
+			if match {
+				return xv, true
+			}
+			return ev.zero(e.Pos(), tv.Type), false
+		}
 	}
 	ev.fail(e.Pos(), "type assertion on %s", Show(v))
 	return nil, false
